@@ -1,9 +1,13 @@
 META = {
     'level': 'other',
-    'text': 'History exploration with solver-chosen call selectors against a fresh-interpreter oracle (every history of the bounded length over the call pool), plus bounded '
-            'symbolic verification that a parse never alters the model or its configuration (all texts up to the bound). Tests cannot see that an earlier call changes what a '
-            'later identical call returns; the oracle replays the same call without the history.',
-    'note': 'Thread interleavings are NOT covered (no engine here explores Python thread schedules); the property is claimed for sequential histories and the non-mutation '
-            'invariant only. Known findings F8 (compile cache key / mutated cached model), F11, F29 identified by signature.',
-    'technique': 'solver-chosen call selectors (CrossHair/z3 forks over every history within the bound), each history executed natively in its own interpreter against a fresh-interpreter oracle; symbolic execution of parses for the non-mutation invariant',
+    'text': 'History exploration with solver-chosen call selectors against a fresh-interpreter oracle (every history of the bounded length over the call pool), bounded '
+            'symbolic verification that a parse never alters the model or its configuration (all texts up to the bound), and context-bounded thread schedules: two real '
+            'threads parse with one compiled model under a deterministic scheduler whose preemption point is a solver-chosen selector ranging over every call event of the '
+            'first thread (one preemption window, both roles). Tests cannot see that an earlier call or a concurrent parse changes what a call returns; the oracles replay '
+            'the same call without the history / sequentially.',
+    'note': 'Thread schedules are covered within a context bound of one preemption window at call-event (thorough: call+line event) granularity for two threads; finer '
+            'interleavings, more threads, concurrent compile() calls and free-threaded builds are outside. Known findings F8 (compile cache key / mutated cached model, '
+            'exact signature), F11, F29 identified by signature; F38 (race of two first parses in Grammar.optimized) was found by the schedule obligations and repaired.',
+    'technique': 'solver-chosen selectors (CrossHair/z3 forks over every history / every preemption point within the bound), each history executed natively in its own interpreter '
+                 'against a fresh-interpreter oracle and each schedule executed on real threads under a deterministic scheduler; symbolic execution of parses for the non-mutation invariant',
 }
